@@ -78,7 +78,7 @@ func atou(s string) uint64 {
 func runAPI(op string, args []string) string {
 	return guard(func() string {
 		var data []byte
-		if len(args) > 0 && op != "fpExact" && op != "fpEL" {
+		if len(args) > 0 && op != "fpExact" && op != "fpEL" && op != "StackLen" {
 			data = exact(unhx(args[0]))
 		}
 		okp := func(val string, p int, err error) string {
@@ -102,6 +102,25 @@ func runAPI(op string, args []string) string {
 		case "SkipValueFast":
 			p, err := rjson.SkipValueFast(data, bufferWith(parseStack(args[1])))
 			return okp("-", p, err)
+		case "StackLen":
+			// args: fn, data, stack — `data` above is args[0] decoded, so decode again
+			d := unhx(args[1])
+			st := parseStack(args[2])
+			b := &rjson.Buffer{}
+			cp := make([]int, len(st), len(st)+4)
+			copy(cp, st)
+			rjson.VerifSetBufferStack(b, cp)
+			switch args[0] {
+			case "SkipValue":
+				rjson.SkipValue(d, b)
+			case "SkipValueFast":
+				rjson.SkipValueFast(d, b)
+			case "Valid":
+				rjson.Valid(d, b)
+			default:
+				return "bad-op"
+			}
+			return fmt.Sprint(len(rjson.VerifBufferStack(b)))
 		case "NextToken":
 			t, p, err := rjson.NextToken(data)
 			switch {
